@@ -14,7 +14,10 @@ Loader kinds:
   ftriple  FunctionLoader returning (source, None, uptodate); the up-to-date
            function compares a generation stamp that every change bumps
   fs       FileSystemLoader on a scratch directory; every write gets an mtime
-           forced with os.utime from a strictly increasing counter
+           forced with os.utime: "newer" writes take it from a strictly
+           increasing counter, "older" writes (backup restore, cp -p, clock set
+           back) from a strictly decreasing one, so a changed file never has
+           the mtime it was cached with, in either direction
   choice   ChoiceLoader([DictLoader(store0), DictLoader(store1)])
   dict2    two separate DictLoaders; the operation `use(i)` assigns
            env.loader = loader_i (the cache key contains the loader)
@@ -44,7 +47,7 @@ META = {
     "len(cache) <= n.  Reaching the fixpoint makes this a statement about histories of every length; merged states are "
     "bisimulation-checked and all histories up to depth 6 (quick 4) are additionally enumerated without merging.",
     "note": "Bounded: 2-3 names, 2-3 versions, <= 2 stores; one Environment per history; no bytecode cache; file mtimes "
-    "forced with os.utime (equal mtimes after a change are out of scope); single-threaded (C26 covers the LRU under "
+    "forced with os.utime, both forwards and backwards (equal mtimes after a change are out of scope); single-threaded (C26 covers the LRU under "
     "threads).",
     "design_ref": "DESIGN.md §4 C25, §3 E2, R-tcache",
 }
@@ -82,6 +85,8 @@ class Model:
 
     # ---- loader side
     def put(self, j, n, v):
+        # every change gives the source a stamp it never had before; whether the file system calls that stamp
+        # "older" or "newer" is irrelevant: the property makes no exception for mtimes moving backwards
         self.clock += 1
         self.stores[j][n] = (v, self.clock)
 
@@ -197,10 +202,14 @@ def enabled_ops(m: Model, names, versions):
             if n in st:
                 for v in versions:
                     ops.append(("modify", j, n, v))  # v == current version is a "touch": new mtime / generation
+                    if m.kind == "fs":
+                        ops.append(("modify", j, n, v, "older"))  # the file is replaced by one with an OLDER mtime
                 ops.append(("delete", j, n))
             else:
                 for v in versions:
                     ops.append(("add", j, n, v))
+                    if m.kind == "fs":
+                        ops.append(("add", j, n, v, "older"))
     if m.kind == "dict2":
         ops.append(("use", 1 - m.active))
     return ops
@@ -209,7 +218,7 @@ def enabled_ops(m: Model, names, versions):
 # --------------------------------------------------------------------------
 # the real thing
 
-_FS = {"n": 0, "clock": 1_000_000}
+_FS = {"n": 0, "clock": 1_000_000, "down": 1_000_000}
 _ENVCLS = []
 MEMO = {"on": True, "code": {}}
 
@@ -288,14 +297,18 @@ class Impl:
             raise AssertionError(kind)
         self.env = CountingEnv(loader=self.loaders[0], cache_size=size, auto_reload=auto_reload)
 
-    def put(self, j, n, v):
+    def put(self, j, n, v, older=False):
         src = text(j, n, v)
         if self.kind == "fs":
             path = os.path.join(self.dir, n)
             with open(path, "w", encoding="utf-8") as f:
                 f.write(src)
-            _FS["clock"] += 1
-            t = _FS["clock"] * 10**9
+            if older:
+                _FS["down"] -= 1
+                t = _FS["down"] * 10**9
+            else:
+                _FS["clock"] += 1
+                t = _FS["clock"] * 10**9
             os.utime(path, ns=(t, t))
         elif self.kind == "ftriple":
             self.gen += 1
@@ -362,7 +375,7 @@ def impl_step(im: Impl, op):
             out = out + ("compile/_compile disagree %d/%d" % (nc, nd),)
         return out + (nc,)
     if kind in ("modify", "add"):
-        im.put(op[1], op[2], op[3])
+        im.put(op[1], op[2], op[3], older=len(op) > 4)
         return None
     if kind == "delete":
         im.delete(op[1], op[2])
@@ -403,7 +416,13 @@ def step(s, op):
             iobs = iobs + ("len(cache)=%d > %d" % (len(im.env.cache), m.size),)
         # the property, stated without the cache model: auto_reload + up-to-date check => current source
         if m.auto_reload and HAS_UPTODATE[m.kind] and iobs[:2] != want:
-            iobs = iobs + (("not-current", want),)
+            tag = ()
+            if m.kind == "choice" and iobs[0] == "ok" and isinstance(iobs[1], str) and iobs[1][:1].isupper():
+                # structural: the served text comes from the LATER member (store 1, upper case) although the
+                # EARLIER member (store 0) now has that name
+                if iobs[1][:1].lower() in m.stores[0] and iobs[1][:1].lower() in op[1:]:
+                    tag = ("shadowed",)
+            iobs = iobs + (("not-current", want) + tag,)
         # outcome classes for distinct_nontrivial
         if mobs[0] == "exc":
             cls = "notfound-cached" if any(pre_cached) else "notfound"
@@ -447,7 +466,7 @@ def plain_script(cfg, hist):
               "    return src, None, (lambda: name in s0 and s0[name][1] == gen)",
               "loaders = [jinja2.FunctionLoader(load)]", "gen = 0"]
     elif kind == "fs":
-        L += ["import tempfile", "d = tempfile.mkdtemp(dir='/dev/shm')", "loaders = [jinja2.FileSystemLoader(d)]", "clock = 10**6"]
+        L += ["import tempfile", "d = tempfile.mkdtemp(dir='/dev/shm')", "loaders = [jinja2.FileSystemLoader(d)]", "clock = down = 10**6"]
     elif kind == "choice":
         L += ["s0, s1 = {}, {}", "loaders = [jinja2.ChoiceLoader([jinja2.DictLoader(s0), jinja2.DictLoader(s1)])]"]
     elif kind == "dict2":
@@ -471,8 +490,12 @@ def plain_script(cfg, hist):
         elif op[0] in ("modify", "add"):
             src = text(op[1], op[2], op[3])
             if kind == "fs":
-                L += [f"open(os.path.join(d, {op[2]!r}), 'w').write({src!r}); clock += 1",
-                      f"os.utime(os.path.join(d, {op[2]!r}), ns=(clock * 10**9, clock * 10**9))"]
+                if len(op) > 4:
+                    L += [f"open(os.path.join(d, {op[2]!r}), 'w').write({src!r}); down -= 1  # older mtime",
+                          f"os.utime(os.path.join(d, {op[2]!r}), ns=(down * 10**9, down * 10**9))"]
+                else:
+                    L += [f"open(os.path.join(d, {op[2]!r}), 'w').write({src!r}); clock += 1",
+                          f"os.utime(os.path.join(d, {op[2]!r}), ns=(clock * 10**9, clock * 10**9))"]
             elif kind == "ftriple":
                 L.append(f"gen += 1; s0[{op[2]!r}] = ({src!r}, gen)")
             else:
@@ -520,7 +543,8 @@ def _classify(cfg, kind, hist, op, a, b):
         extra = a[len(b):]
         if all(isinstance(x, tuple) and x and x[0] == "not-current" for x in extra):
             # implementation and cache model agree, but the rendered text is not the current source
-            return f"C25/not-current-source/{cfg[0]}" + ("/shadowed-by-earlier-loader" if cfg[0] == "choice" else "")
+            shadowed = all(x[-1] == "shadowed" for x in extra)
+            return f"C25/not-current-source/{cfg[0]}" + ("/shadowed-by-earlier-loader" if shadowed else "")
         return f"C25/invariant/{cfg[0]}/{okind}"
     if kind == "obs":
         what = "result"
@@ -692,7 +716,7 @@ def run(ctx: core.Ctx):
                 "Environment; distinct = (loader kind, cache size, auto_reload, operation, outcome class in "
                 "{hit, hit-not-reloaded, miss, reload, notfound, notfound-cached})")
     ctx.assumptions += [
-        "file mtimes are forced with os.utime from a strictly increasing counter: 'changed but same mtime' is out of scope",
+        "file mtimes are forced with os.utime (newer: increasing counter, older: decreasing counter): 'changed but same mtime' is out of scope",
         "CALIBRATED: a lookup of a cached template counts as a use for the LRU order even when the template turns out stale",
         "CALIBRATED: a cached template whose reload raises TemplateNotFound stays in the cache",
         "CALIBRATED: with ChoiceLoader the up-to-date function is the serving sub-loader's (used only to keep model and "
